@@ -16,9 +16,10 @@ package dmg
 //@   ghost sigOK bool = false
 //@   ghost vb *csblob.VerifiedBlob = nil
 //@   ghost pagesOK bool = false
-//@   before call csblob.Verify(b, p): assert @the_embedded_signature_blob_is_verified_against_the_trailer sameslice(b, d.sigBlob) && sameslice(p.RepSpecific, rep)
+//@   before call csblob.Verify(b, p): assert @the_embedded_signature_blob_is_verified_against_the_trailer sameslice(b, d.sigBlob) && hashed && sameslice(p.RepSpecific, rep)
 //@   ghost rep []byte = nil
-//@   on call (udifResourceFile).ForHashing(_) ret (b): rep = b
+//@   ghost hashed bool = false
+//@   on call (udifResourceFile).ForHashing(_) ret (b): rep = b; hashed = true
 //@   on call csblob.Verify(_, _) ret (v, e): sigOK = (e == nil); vb = v
 //@   before call io.NewSectionReader(src, off, n): assert @pages_cover_the_image_up_to_the_end_of_the_property_list src == d.r && off == 0 && n == wrap64(d.rsf.XMLOffset + d.rsf.XMLLength)
 //@   before call (*csblob.SigBlob).VerifyPages(sb, _): assert @page_hashes_belong_to_the_verified_signature sigOK && sb == vb.Blob
